@@ -21,7 +21,9 @@ Flat(r) == [y |-> r.date.y, m |-> r.date.m, d |-> r.date.d, cal |-> "iso8601", h
 \* a cell with both = TRUE passes smallestUnit AND a disagreeing fractionalSecondDigits: smallestUnit wins (ToSecondsStringPrecisionRecord)
 Both(c) == "both" \in DOMAIN c /\ c.both
 SuOfP(p) == CASE p = -2 -> "minute" [] p = 0 -> "second" [] p = 3 -> "millisecond" [] p = 6 -> "microsecond" [] OTHER -> "nanosecond"
-Opts(c, mode) == IF Both(c) THEN [prec |-> IF c.p = 3 THEN 7 ELSE 3, su |-> SuOfP(c.p), mode |-> mode]
+\* (viaPrec: the minute precision given as the precision itself - Precision::Minute - instead of through smallestUnit)
+ViaPrec(c) == "viaPrec" \in DOMAIN c /\ c.viaPrec
+Opts(c, mode) == IF ViaPrec(c) THEN [prec |-> -2, su |-> "", mode |-> mode] ELSE IF Both(c) THEN [prec |-> IF c.p = 3 THEN 7 ELSE 3, su |-> SuOfP(c.p), mode |-> mode]
                  ELSE [prec |-> IF c.p = -2 THEN -1 ELSE c.p, su |-> IF c.p = -2 THEN "minute" ELSE "", mode |-> mode]
 CaseFor(c, mode) ==
   LET u == PrecUnit(c.p)  inc == PrecInc(c.p)  p == c.p IN
@@ -55,6 +57,6 @@ RemCls(c) ==
   LET n == IncNs(PrecInc(c.p), PrecUnit(c.p))
       x == IF c.ty \in {"PlainTime", "PlainDateTime"} THEN TimeNsOf(c.t) ELSE IF c.ty = "Duration" THEN TimeNs(c.D) ELSE c.i
   IN RoundCls(x, n)
-ClsOf(c, mode) == c.ty \o "/p" \o ToString(c.p) \o (IF Both(c) THEN "+digits" ELSE "") \o "/" \o RemCls(c) \o "/" \o mode
+ClsOf(c, mode) == c.ty \o "/p" \o ToString(c.p) \o (IF Both(c) THEN "+digits" ELSE IF ViaPrec(c) THEN "+as-precision" ELSE "") \o "/" \o RemCls(c) \o "/" \o mode
 
 =============================================================================
